@@ -14,7 +14,7 @@ from ..core.explorer import Ctx, explore
 
 PROPERTY = "C11"
 LEVEL = "fault_enumeration"
-RULE = ("histories H1 (serial sweep of 3 designs), H2 (NSGA-II N=2, G=2: evaluate-time sync, per-generation re-sync, final sync_all), H4 (serial sweep in which one design fails transiently twice and is re-sampled), H5 (serial sweep in which the second design's synchronisation meets seven 'database is locked' answers of another writer before it gets through), H6 (two designs under the gradient evaluator: rows that refer to finite-difference children by id, written before those children), H3 "
+RULE = ("histories H1 (serial sweep of 3 designs), H2 (NSGA-II N=2, G=2: evaluate-time sync, per-generation re-sync, final sync_all), H4 (serial sweep in which one design fails transiently twice and is re-sampled), H5 (serial sweep in which the second design's synchronisation meets seven 'database is locked' answers of another writer before it gets through), H6 (two designs under the gradient evaluator: rows that refer to finite-difference children by id, written before those children), H7 (1100 individuals written by one sync_all, changed, written again: death at every event that is not an upsert and at every 97th upsert), H8 (an NSGA-II run followed by a sweep on the same store: individuals of two classes), H3 "
         "(sweep of 2 designs on 2 workers, every schedule with <=1 (thorough 2) pre-emptions): the writer process is killed (os._exit, no "
         "clean-up) at EVERY event index (objective entry/exit, before/after each connect / execute / commit); additionally SIGKILL "
         "immediately before EVERY file-mutating system call (pwrite64, unlink, ftruncate, fsync, ...) of H1 (thorough: H1, H2, H4 and H5), which reaches death inside a commit. After each death the "
@@ -39,6 +39,7 @@ def expected_signed(costs):
 def run_history(name, db, ack_fd, on_point, ctx=None, seed=0):
     """Executed in the process that is going to die. on_point(label) is called at every event."""
     from artap.datastore import SqliteDataStore
+    from artap.individual import Individual
     from artap.individual import Individual
     from ..core.sched import Hooks, sql_proxy, scheduled
     from ..core import shim as shim_mod
@@ -84,22 +85,30 @@ def run_history(name, db, ack_fd, on_point, ctx=None, seed=0):
     def attach(store):
         inner_si, inner_sa = store.sync_individual, store.sync_all
 
+        tokens = {}
+
+        def line(tag, individual):
+            tok = tokens.setdefault(id(individual), (len(tokens), individual))[0]     # keeps the object alive: ids of objects stay unique
+            return "%s %d %d %s\n" % (tag, tok, individual.id, json.dumps([float(x) for x in individual.vector]))
+
         def si(individual, *a, **kw):       # the store's retry calls itself through this attribute, possibly with arguments
             synced["n"] += 1
             if name == "H5" and synced["n"] == 2:
                 forced.left = 7
+            os.write(ack_fd, line("B", individual).encode())
             r = inner_si(individual, *a, **kw)
-            os.write(ack_fd, ("%d\n" % individual.id).encode())
+            os.write(ack_fd, line("A", individual).encode())
             return r
 
         def sa():
+            os.write(ack_fd, "".join(line("B", i) for i in problem.individuals).encode())
             r = inner_sa()
-            os.write(ack_fd, ("".join("%d\n" % i.id for i in problem.individuals)).encode())
+            os.write(ack_fd, "".join(line("A", i) for i in problem.individuals).encode())
             return r
         store.sync_individual, store.sync_all = si, sa
         problem.data_store = store
         os.write(ack_fd, b"C\n")            # the store has been created (constructor returned)
-    if name in ("H1", "H2", "H4", "H5", "H6"):
+    if name in ("H1", "H2", "H4", "H5", "H6", "H7", "H8"):
         hooks = Hooks(None, on_point=on_point, zero_timeout=False)
         if name == "H5":
             hooks.ctx, hooks.extlock_max = forced, 7
@@ -107,7 +116,36 @@ def run_history(name, db, ack_fd, on_point, ctx=None, seed=0):
             attach(SqliteDataStore(problem, database_name=db))
             if hasattr(on_point, "mark"):
                 on_point.mark("created")
-            if name == "H6":
+            if name == "H7":
+                # a store with more than a thousand individuals: all synchronised by one sync_all, changed in memory,
+                # synchronised again -- a crash during the second pass must not lose what the first one had written
+                for k in range(1100):
+                    v = [k / 1100.0, -2.0 + 4.0 * ((k * 7) % 1100) / 1100.0]
+                    ind = Individual(v)
+                    ind.costs = f(v)
+                    ind.costs_signed = expected_signed(ind.costs) + [True]
+                    ind.state = Individual.State.EVALUATED
+                    problem.individuals.append(ind)
+                problem.data_store.sync_all()
+                for ind in problem.individuals:
+                    ind.population_id = 3
+                problem.data_store.sync_all()
+            elif name == "H8":
+                # two studies on one store in one process: an NSGA-II run, then a sweep (different individual classes)
+                from artap.algorithm_NSGAII import NSGAII
+                sh = shim_mod.install()
+                sh.reset(4321 + seed, None)
+                alg = NSGAII(problem)
+                alg.options['max_population_number'] = 2
+                alg.options['max_population_size'] = 2
+                alg.options['verbose_level'] = 0
+                alg.run()
+                from artap.algorithm_sweep import SweepAlgorithm
+                from artap.operators import CustomGenerator
+                gen = CustomGenerator(problem.parameters)
+                gen.init([[0.25, -1.0], [0.5, 0.0], [0.75, 1.5]])
+                SweepAlgorithm(problem, generator=gen).run()
+            elif name == "H6":
                 # designs whose rows refer to other individuals by id (finite-difference children of the gradient
                 # evaluator, written after their parent): a crash leaves references to rows that were never written
                 from artap.algorithm import Algorithm, EvaluatorType
@@ -161,10 +199,25 @@ def inspect(db, ack_path, created, desc):
     import atexit
     out = []
     acks = []
+    objs = {}
     if os.path.exists(ack_path):
-        toks = open(ack_path).read().split()
-        created = created or ("C" in toks)
-        acks = [int(x) for x in toks if x != "C"]
+        objs = {}          # token -> {"id":, "acked": last acknowledged vector or None, "begun": vectors whose synchronisation had begun}
+        for ln in open(ack_path).read().splitlines():
+            parts = ln.split(" ", 3)
+            if parts[0] == "C":
+                created = True
+            elif parts[0] in ("A", "B") and len(parts) == 4:
+                try:
+                    tok, iid, vec = int(parts[1]), int(parts[2]), json.loads(parts[3])
+                except ValueError:
+                    continue                       # a line cut short by the kill
+                o = objs.setdefault(tok, {"id": iid, "acked": None, "begun": []})
+                o["id"] = iid
+                if parts[0] == "A":
+                    o["acked"] = vec
+                    acks.append(iid)
+                else:
+                    o["begun"].append(vec)
     if not os.path.exists(db):
         if created or acks:
             out.append(("C11:file-missing", desc))
@@ -210,6 +263,21 @@ def inspect(db, ack_path, created, desc):
             break
     if len(ids) != len(set(ids)):
         out.append(("C11:duplicate-rows", "ids %r; %s" % (ids, desc)))
+    # individual by individual (not id by id): the row of an acknowledged individual holds THAT individual -- its last
+    # acknowledged design, or one whose synchronisation had begun afterwards
+    byid = {}
+    for rid, js in rows:
+        try:
+            byid[rid] = json.loads(js)["vector"]
+        except Exception:
+            pass
+    for tok, o in sorted(objs.items()):
+        if o["acked"] is None or o["id"] not in byid:
+            continue
+        if byid[o["id"]] != o["acked"] and byid[o["id"]] not in o["begun"]:
+            out.append(("C11:acknowledged-individual-replaced-by-another", "an individual with id %d and design %r had been synchronised; the row with that id holds the design %r; %s" % (
+                o["id"], o["acked"], byid[o["id"]], desc)))
+            break
     for rid, js in rows:
         try:
             d = json.loads(js)
@@ -239,7 +307,7 @@ def paths(tag):
     return db, ack
 
 
-def event_level(name, col, choices=None, seed=0):
+def event_level(name, col, choices=None, seed=0, part=None):
     """All crash indices of one history (and, for H3, one schedule)."""
     import artap.algorithm_sweep, artap.algorithm_NSGAII  # noqa: F401,E401
     # crash-free run in a child to count events and find the creation mark
@@ -263,6 +331,10 @@ def event_level(name, col, choices=None, seed=0):
     col.case()
     total, created = info["n"], info["created"]
     for k in range(1, total + 1):
+        if name == "H7" and info["labels"][k - 1].startswith("db:execute-insert") and k % 97 != 0 and k < total - 6:
+            continue       # H7: every event that is not one of the 2 x 1100 x 2 upsert events, and every 97th of those
+        if part is not None and k % part[1] != part[0]:
+            continue
         db, ack = paths(name)
 
         def child(k=k):
@@ -318,8 +390,8 @@ def syscall_level(name, points, col, seed=0):
 def _shard(shard, col: Collector):
     kind = shard[0]
     if kind == "event":
-        _, name, seed = shard
-        total = event_level(name, col, None, seed)
+        _, name, seed = shard[:3]
+        total = event_level(name, col, None, seed, shard[3] if len(shard) > 3 else None)
         col.sample({"history": name, "level": "event", "crash_points": total}, 2)
     elif kind == "h3":
         _, choices, seed = shard
@@ -370,7 +442,7 @@ def replay(sub, case):
 
 def run(tier, seed):
     import artap.algorithm_sweep, artap.algorithm_NSGAII, artap.datastore  # noqa: F401,E401
-    shards = [("event", "H1", seed), ("event", "H2", seed), ("event", "H4", seed), ("event", "H5", seed), ("event", "H6", seed)]
+    shards = [("event", "H1", seed), ("event", "H2", seed), ("event", "H4", seed), ("event", "H5", seed), ("event", "H6", seed), ("event", "H8", seed)] + [("event", "H7", seed, (i, 4)) for i in range(4)]
     scheds = h3_schedules(2 if tier == "thorough" else 1)
     shards += [("h3", tuple(s), seed) for s in scheds]
     extra = {"h3_schedules": len(scheds)}
